@@ -48,6 +48,7 @@ type taskT struct {
 }
 
 type timerT struct {
+	gen   int64
 	used  bool
 	at    int64
 	f     func()
@@ -222,9 +223,7 @@ func park(me int) {
 			}
 			// nobody can run and no timer is pending: deadlock
 			Deadlock = true
-			for i := 0; i < nTasks; i++ {
-				DeadInfo[i] = tasks[i].state*10 + tasks[i].kind
-			}
+			fillDeadInfo()
 			if OnDeadlock != nil {
 				OnDeadlock()
 			}
@@ -411,6 +410,7 @@ func finishTask(i int) {
 		}
 		if !advanceTime() {
 			Deadlock = true
+			fillDeadInfo()
 			if OnDeadlock != nil {
 				OnDeadlock()
 			}
@@ -451,6 +451,7 @@ func idleRunner(j int) {
 		}
 		if !advanceTime() {
 			Deadlock = true
+			fillDeadInfo()
 			if OnDeadlock != nil {
 				OnDeadlock()
 			}
@@ -671,7 +672,7 @@ func addTimer(at int64, f func()) (int, int64) {
 	for i := range timers {
 		if !timers[i].used || timers[i].fired {
 			timerGen++
-			timers[i] = timerT{used: true, at: at, f: f}
+			timers[i] = timerT{gen: timerGen, used: true, at: at, f: f}
 			return i, timerGen
 		}
 	}
@@ -679,9 +680,9 @@ func addTimer(at int64, f func()) (int, int64) {
 }
 
 //go:norace
-func stopTimer(slot int) bool {
-	if slot < 0 || !timers[slot].used || timers[slot].fired {
-		return false
+func stopTimer(slot int, gen int64) bool {
+	if slot < 0 || !timers[slot].used || timers[slot].fired || timers[slot].gen != gen {
+		return false // already fired, stopped, or the slot belongs to a newer timer
 	}
 	timers[slot].used = false
 	return true
@@ -695,23 +696,40 @@ func AfterFunc(d time.Duration, f func()) *SimTimer {
 	if d < 0 {
 		d = 0
 	}
-	slot, _ := addTimer(nowNs()+int64(d), f)
+	slot, gen := addTimer(nowNs()+int64(d), f)
 	if slot < 0 {
 		panic("verifsimsync: too many timers")
 	}
 	timerHB[slot].Lock() // release
 	timerHB[slot].Unlock()
-	return &SimTimer{slot: slot}
+	return &SimTimer{slot: slot, gen: gen}
 }
 
 type SimTimer struct {
 	real *time.Timer
 	slot int
+	gen  int64
 }
 
 func (t *SimTimer) Stop() bool {
 	if t.real != nil {
 		return t.real.Stop()
 	}
-	return stopTimer(t.slot)
+	return stopTimer(t.slot, t.gen)
+}
+
+// RecordedSoFar returns the schedule recorded up to now (used when a run cannot finish).
+//
+//go:norace
+func RecordedSoFar() []uint8 {
+	out := make([]uint8, recN)
+	copy(out, rec[:recN])
+	return out
+}
+
+//go:norace
+func fillDeadInfo() {
+	for i := 0; i < nTasks; i++ {
+		DeadInfo[i] = tasks[i].state*10 + tasks[i].kind
+	}
 }
